@@ -28,7 +28,8 @@ def rule_module(prop):
 def analyse(prop, root="/repo", overlay=None, tier="quick", base_tree=None):
     """Run the rules of one property; returns the Ctx (never raises)."""
     try:
-        tree = Tree(root, overlay) if base_tree is None else base_tree
+        # C20 resolves the names of the program as written: it reads the tree without the helper inlining of normalize.py
+        tree = Tree(root, overlay, inline=(prop != "C20")) if base_tree is None else base_tree
         res = Resolver(tree)
     except AnalysisError as err:
         class _T(object):
